@@ -214,6 +214,12 @@ def parses_as_int(s):
         return False
 
 
+def sorted_member_fact(xs, x, key=None):
+    """Instance of the trusted contract of the builtin sorted(): `x in sorted(xs, key=key)  <=>  x in xs` is assumed
+    for this x (the engine keeps its queries quantifier-free). Natively a no-op."""
+    return True
+
+
 def is_sorted(xs, key=None):
     """xs is ordered (non-decreasing) by the integer key -- the predicate the trusted contract of the builtin
     sorted(xs, key=...) promises for its result (same lambda text => same predicate)."""
